@@ -136,27 +136,37 @@ fn cid(c: char) -> u16 { CHAR_MAP.chars().position(|x| x == c).unwrap() as u16 +
 fn put_u32(b: &mut Vec<u8>, v: u32) { b.extend_from_slice(&v.to_le_bytes()); }
 fn put_i16s(b: &mut Vec<u8>, vs: &[i16]) { put_u32(b, vs.len() as u32); for v in vs { b.extend_from_slice(&v.to_le_bytes()); } }
 fn put_string(b: &mut Vec<u8>, s: &str) { put_u32(b, s.chars().count() as u32); for c in s.chars() { b.extend_from_slice(&cid(c).to_le_bytes()); } }
-/// a KyTea dictionary = a trie (without failure links) + entries
+/// a KyTea dictionary = an Aho-Corasick automaton + entries. As in files written by KyTea itself, the output list of a
+/// state holds its own entry first (if the state ends an entry: the branch flag) and then the entries that are proper
+/// suffixes of the state's string (outputs inherited over the failure links) -- so a state that ends NO entry can still
+/// have a non-empty output list. Failure links are written as 0 (the reader ignores them).
 fn put_dictionary(b: &mut Vec<u8>, n_dicts: u8, words: &[String], put_entry: &mut dyn FnMut(&mut Vec<u8>, usize)) {
     b.push(n_dicts);
     if words.is_empty() { put_u32(b, 0); return; }
-    let mut states: Vec<(std::collections::BTreeMap<char, u32>, Option<u32>)> = vec![(Default::default(), None)];
+    let mut states: Vec<(std::collections::BTreeMap<char, u32>, Option<u32>, Vec<char>)> = vec![(Default::default(), None, vec![])];
     for (i, w) in words.iter().enumerate() {
         let mut cur = 0usize;
         for c in w.chars() {
             let next = states.len() as u32;
             let e = *states[cur].0.entry(c).or_insert(next);
-            if e == next { states.push((Default::default(), None)); }
+            if e == next { let mut st = states[cur].2.clone(); st.push(c); states.push((Default::default(), None, st)); }
             cur = e as usize;
         }
         states[cur].1 = Some(i as u32);
     }
     put_u32(b, states.len() as u32);
-    for (gotos, out) in &states {
+    for (gotos, out, spelled) in &states {
         put_u32(b, 0);
         put_u32(b, gotos.len() as u32);
         for (&c, &next) in gotos { b.extend_from_slice(&cid(c).to_le_bytes()); put_u32(b, next); }
-        match out { Some(e) => { put_u32(b, 1); put_u32(b, *e); b.push(1); } None => { put_u32(b, 0); b.push(0); } }
+        let mut outputs: Vec<u32> = out.iter().copied().collect();
+        for k in 1..spelled.len() {
+            let suffix: String = spelled[k..].iter().collect();
+            if let Some(j) = words.iter().position(|w| *w == suffix) { outputs.push(j as u32); }
+        }
+        put_u32(b, outputs.len() as u32);
+        for o in &outputs { put_u32(b, *o); }
+        b.push(out.is_some() as u8);
     }
     put_u32(b, words.len() as u32);
     for i in 0..words.len() { put_entry(b, i); }
